@@ -116,3 +116,60 @@ window1!(c06_w1_neg_succeeds, |all, limit| TextSelectionOperator::Succeeds { all
 window1!(c06_w1_neg_samebegin, |all, limit| TextSelectionOperator::SameBegin { all, negate: true });
 window1!(c06_w1_neg_sameend, |all, limit| TextSelectionOperator::SameEnd { all, negate: true });
 window1!(c06_w1_neg_samerange, |all, limit| TextSelectionOperator::SameRange { all, negate: true });
+
+// ------------------------------------------------------------------ reference sets of two selections
+macro_rules! window2 {
+    ($(#[$m:meta])* $name:ident, gap = $gap:expr, |$all:ident, $limit:ident| $op:expr) => {
+        #[kani::proof]
+        #[kani::unwind(6)]
+        #[kani::stub(TextResource::range, range_stub)]
+        $(#[$m])*
+        fn $name() {
+            unsafe { GAP_IS_WS = $gap; NWIN = 0; }
+            let textlen: usize = kani::any();
+            kani::assume(textlen <= isize::MAX as usize);
+            let r1 = ts_in(textlen, 0);
+            let r2 = ts_in(textlen, 1);
+            let t = ts_in(textlen, 2);
+            let $all: bool = kani::any();
+            let $limit: Option<usize> = kani::any();
+            let op: TextSelectionOperator = $op;
+            let res = bare(textlen);
+            let refset = set2(r1, r2);
+            let related = refset.test(&op, &t, &res) && !refset.has_handle(t.handle().unwrap());
+            let mut it = mk_iter(&res, op, refset);
+            it.init_textseliters();
+            let n = unsafe { NWIN };
+            assert!(n == it.textseliters.len() && n >= 1 && n <= MAXWIN, "one recorded window per sub-iterator");
+            let (h, wf) = hits(&it, &t);
+            assert!(wf, "every window is a valid range (BTreeMap::range panics on start > end)");
+            if related {
+                assert!(h >= 1, "completeness: a related selection lies in a window the search walks");
+            }
+            assert!(h <= 1, "each once: no selection lies in two windows");
+            kani::cover!(related && r1.begin > textlen / 2, "related, reference in the second half of the text");
+            kani::cover!(related && r1.begin < r2.begin && r2.begin < r1.end, "related, overlapping reference members");
+            kani::cover!(related && r1.end <= r2.begin, "related, non-overlapping reference members");
+            kani::cover!(!related, "unrelated selection");
+            core::mem::forget(it);
+            core::mem::forget(res);
+        }
+    };
+    ($name:ident, |$all:ident, $limit:ident| $op:expr) => {
+        window2!($name, gap = false, |$all, $limit| $op);
+    };
+}
+window2!(c06_w2_overlaps, |all, limit| TextSelectionOperator::Overlaps { all, negate: false });
+window2!(c06_w2_embeds, |all, limit| TextSelectionOperator::Embeds { all, negate: false });
+window2!(c06_w2_embedded, |all, limit| TextSelectionOperator::Embedded { all, negate: false, limit });
+window2!(c06_w2_before, |all, limit| TextSelectionOperator::Before { all, negate: false, limit });
+window2!(c06_w2_after, |all, limit| TextSelectionOperator::After { all, negate: false, limit });
+window2!(c06_w2_precedes, |all, limit| TextSelectionOperator::Precedes { all, negate: false, allow_whitespace: false });
+window2!(c06_w2_succeeds, |all, limit| TextSelectionOperator::Succeeds { all, negate: false, allow_whitespace: false });
+window2!(#[kani::stub(<TextResource as Text>::text_by_offset, gap_stub)] c06_w2_precedes_ws_gapws, gap = true, |all, limit| TextSelectionOperator::Precedes { all, negate: false, allow_whitespace: true });
+window2!(#[kani::stub(<TextResource as Text>::text_by_offset, gap_stub)] c06_w2_succeeds_ws_gapws, gap = true, |all, limit| TextSelectionOperator::Succeeds { all, negate: false, allow_whitespace: true });
+window2!(c06_w2_samebegin, |all, limit| TextSelectionOperator::SameBegin { all, negate: false });
+window2!(c06_w2_sameend, |all, limit| TextSelectionOperator::SameEnd { all, negate: false });
+window2!(c06_w2_samerange, |all, limit| TextSelectionOperator::SameRange { all, negate: false });
+window2!(c06_w2_neg_overlaps, |all, limit| TextSelectionOperator::Overlaps { all, negate: true });
+window2!(c06_w2_neg_embedded, |all, limit| TextSelectionOperator::Embedded { all, negate: true, limit });
